@@ -238,8 +238,9 @@ Qed.
 Lemma header_strip : forall cols, (forall k, In k cols -> strip_cell k = k) ->
   map strip_cell (csv_default_fields ++ cols) = csv_default_fields ++ cols.
 Proof.
-  intros cols H. rewrite map_app. Set Printing Implicit. Show. Check strip_default_fields. rewrite strip_default_fields. f_equal.
-  rewrite (map_ext_in strip_cell (fun k => k)) by exact H. apply map_id.
+  intros cols H. rewrite map_app.
+  apply (f_equal2 (@app text)); [exact strip_default_fields|].
+  transitivity (map (fun k : text => k) cols); [apply map_ext_in; exact H|apply map_id].
 Qed.
 
 Lemma header_nodup : forall cols, NoDup cols -> (forall k, In k cols -> mem_text k csv_default_fields = false) ->
@@ -254,7 +255,8 @@ Qed.
 Lemma header_custom_keys : forall cols, (forall k, In k cols -> mem_text k csv_default_fields = false) ->
   filter (fun k => negb (mem_text k csv_default_fields)) (csv_default_fields ++ cols) = cols.
 Proof.
-  intros cols H. rewrite filter_app, filter_default_fields. cbn [app].
+  intros cols H. rewrite filter_app.
+  etransitivity; [apply (f_equal2 (@app text)); [exact filter_default_fields|reflexivity]|]. cbn [app].
   induction cols as [|k cols IH]; [reflexivity|].
   cbn [filter]. rewrite (H k (or_introl eq_refl)). cbn [negb]. f_equal.
   apply IH. intros k' Hk'. apply H. right; exact Hk'.
